@@ -129,6 +129,8 @@ def check(prog, res, tier):
         lim = 10 ** K[ft] - 1
         trial = p.store.copy()
         try:
+            if trial.refutes_ge0(Lin.const(lim) - n):
+                return []
             trial.assume_ge0(Lin.const(lim) - n)
         except Infeasible:
             return []
